@@ -226,6 +226,160 @@ IMPL = {
 
 
 # ------------------------------------------------------------------------------------------------
+# the command line entry point `bits script` (run in-process through harness/cli.py)
+#   bits [-0 FMT] script ITEM...              = write_bytes(script(ITEMS), output_format)
+#   bits script --witness HEX...              = script(ITEMS, witness=True)
+#   bits script --decode HEXSCRIPT...         = json.dumps([decode_script(bytes.fromhex(h)) for h in ...])
+#   bits script --decode --witness HEX...     = the same with witness=True
+# The sub-parser has no -0/-1/-o of its own: the output format comes from the base option in FRONT of the
+# sub-command or from the configuration file.  Each cli_* op returns the canonical value of its library op.
+# ------------------------------------------------------------------------------------------------
+CLI_FMT = {
+    "hex": ([], None), "hex-explicit": (["-0", "hex"], None), "x": (["-0x"], None),
+    "raw": (["-0", "raw"], None), "bin": (["-0", "bin"], None), "b": (["-0b"], None),
+    "cfg-raw": ([], {"output_format": "raw"}), "cfg-bin": ([], {"output_format": "bin"}),
+    "cfg-hex-in-raw": (["-1", "raw"], {"output_format": "hex"}),     # an input format must not matter
+    "loglevel": ([], None),                                            # -L debug after the sub-command
+}
+
+
+class CliLeak(Exception):
+    """the CLI refused (error return / exit / exception) but had already written to stdout"""
+
+
+def _cli_run(pre, sub, cfg=None):
+    import cli
+    return cli.run_main(list(pre) + ["script"] + list(sub), config_json=cfg)
+
+
+def _cli_refused(r):
+    return bool(r["exc"]) or (isinstance(r["rc"], str) and r["rc"].startswith("ERROR")) or r["exit"] not in (None, 0)
+
+
+def _cli_raise_if_refused(r):
+    if not _cli_refused(r):
+        return
+    if r["out"]:
+        raise CliLeak("refusal (%r) after writing %r to stdout" % (r["rc"], r["out"][:60]))
+    import builtins
+    klass = getattr(builtins, r["exc"] or "", None)
+    if not (isinstance(klass, type) and issubclass(klass, BaseException)):
+        klass = RuntimeError
+    raise klass(str(r["rc"])[:200])
+
+
+def _cli_payload(out, fmt):
+    """stdout of write_bytes -> bytes (strict: exactly the documented rendering, one trailing newline)"""
+    kind = {"hex-explicit": "hex", "x": "hex", "b": "bin", "cfg-raw": "raw", "cfg-bin": "bin", "cfg-hex-in-raw": "hex",
+            "loglevel": "hex"}.get(fmt, fmt)
+    if kind == "raw":
+        return bytes(out)
+    text = out.decode("ascii")
+    if not text.endswith("\n") or "\n" in text[:-1]:
+        raise CliLeak("output is not one line: %r" % text[:80])
+    body = text[:-1]
+    if kind == "hex":
+        if body != body.lower() or len(body) % 2:
+            raise CliLeak("not lower-case hex: %r" % body[:80])
+        return bytes.fromhex(body) if HEXRE.match(body) or body == "" else _bad(body)
+    if len(body) % 8 or body.strip("01"):
+        raise CliLeak("not a binary string: %r" % body[:80])
+    return int(body, 2).to_bytes(len(body) // 8, "big") if body else b""
+
+
+def _bad(body):
+    raise CliLeak("not hex: %r" % body[:80])
+
+
+def _cli_script(items, fmt, witness=False):
+    pre, cfg = CLI_FMT[fmt]
+    sub = (["--witness"] if witness else []) + (["-L", "debug"] if fmt == "loglevel" else []) + list(items)
+    r = _cli_run(pre, sub, cfg)
+    _cli_raise_if_refused(r)
+    return _cli_payload(r["out"], fmt)
+
+
+def _cli_decode_raw(hexes, variant="plain", witness=False):
+    pre = ["-1", "raw"] if variant == "in-raw" else (["-0", "raw"] if variant == "out-raw" else [])
+    sub = ["--decode"] + (["--witness"] if witness else []) + (["-L", "info"] if variant == "loglevel" else [])
+    sub += (["--"] if variant == "dashdash" else []) + list(hexes)
+    r = _cli_run(pre, sub)
+    _cli_raise_if_refused(r)
+    text = r["out"].decode("utf-8")
+    if not text.endswith("\n"):
+        raise CliLeak("no trailing newline: %r" % text[-40:])
+    import json
+    v = json.loads(text)
+    if not (isinstance(v, list) and len(v) == len(hexes)):
+        raise CliLeak("expected a JSON list with one entry per script, got %r" % text[:80])
+    return v
+
+
+def _hexarg(b, variant):
+    h = bytes(b).hex()
+    if variant == "upper":
+        return h.upper()
+    if variant == "spaced":
+        return " ".join(h[i:i + 2] for i in range(0, len(h), 2)) + " "
+    return h
+
+
+def _cli_decode(b, variant):
+    v = _cli_decode_raw([_hexarg(b, variant)], variant)[0]
+    if not (isinstance(v, list) and all(isinstance(x, str) for x in v)):
+        raise CliLeak("not a list of strings: %r" % (v,))
+    return v
+
+
+def _cli_decode_multi(scripts):
+    """several scripts in one call: no model op takes a list of scripts, so the CLI answer is compared with the
+    library function called directly in this worker (True = identical)"""
+    try:
+        want = [S().decode_script(b) for b in scripts]
+    except Exception as e:          # the library refuses one of them: the CLI must refuse too, printing nothing
+        r = _cli_run([], ["--decode"] + [b.hex() for b in scripts])
+        return True if (_cli_refused(r) and not r["out"]) else "library refuses (%s), CLI printed %r" % (type(e).__name__, r["out"][:80])
+    got = _cli_decode_raw([b.hex() for b in scripts])
+    return True if got == want else "cli %r != library %r" % (got, want)
+
+
+def _cli_decode_w(b):
+    """decode --witness: the library returns (items, rest); any JSON rendering [[hex items], hex rest] is accepted"""
+    v = _cli_decode_raw([bytes(b).hex()], witness=True)[0]
+    if not (isinstance(v, list) and len(v) == 2 and isinstance(v[0], list) and isinstance(v[1], str)):
+        raise CliLeak("not [items, rest]: %r" % (v,))
+    return ([bytes.fromhex(x) for x in v[0]], bytes.fromhex(v[1]))
+
+
+IMPL.update({
+    "cli_script": lambda items, fmt: _cli_script(items, fmt),
+    "cli_script_w": lambda items, fmt: _cli_script([d.hex() for d in items], fmt, witness=True),
+    "cli_decode": _cli_decode,
+    "cli_decode_str": lambda h: _cli_decode_raw([h])[0],
+    "cli_decode_multi": _cli_decode_multi,
+    "cli_decode_w": _cli_decode_w,
+})
+
+# the expected value of a cli_* op is the EXISTING model op of its library counterpart
+CLI_MODEL = {"cli_script": "c13_script", "cli_script_w": "c13_witness_ser", "cli_decode": "c13_decode_script",
+             "cli_decode_w": "c13_witness_deser"}
+CLI_LIB = {"cli_script": "script", "cli_script_w": "witness_ser", "cli_decode": "decode_script",
+           "cli_decode_w": "witness_deser"}
+
+
+def model_call(c):
+    if c["op"] in CLI_MODEL:
+        return CLI_MODEL[c["op"]], c["args"][:1]
+    return "c13_" + c["op"], c["args"]
+
+
+# `bits script --decode --witness` ended in json.dumps((items, bytes)) -> TypeError on the pinned tree (repaired by
+# /repo 1e6197d, KNOWN_FINDINGS.txt `fixed:` line): the cases of this class are always generated
+def _decode_witness_cases_enabled():
+    return True
+
+
+# ------------------------------------------------------------------------------------------------
 # the literal property on the implementation
 # ------------------------------------------------------------------------------------------------
 def _classify(arg):
@@ -311,6 +465,10 @@ def prop_oracle(c):
 def in_quantifier(c):
     """is the case inside the set the property quantifies over (so that the oracle says something)?"""
     op, a = c["op"], c["args"]
+    if op in ("cli_decode_multi", "cli_decode_str"):
+        return True
+    if op in CLI_LIB:
+        op, a = CLI_LIB[op], a[:1]
     if op == "script":
         return all(_classify(x) is not None for x in a[0])
     if op == "decode_script":
@@ -324,9 +482,73 @@ def in_quantifier(c):
     return _intended(op, a) is not None
 
 
+def _cli_oracle(c):
+    """cli_* ops: the CLI must print exactly what the property requires of the library op, and refuse - with empty
+    stdout - whatever the library refuses"""
+    m = S()
+    op, a = c["op"], c["args"]
+    if op == "cli_decode_multi":
+        v = IMPL[op](*a)
+        return None if v is True else v
+    if op == "cli_decode_str":
+        try:
+            lib = ("ok", m.decode_script(bytes.fromhex(a[0])))
+        except Exception as e:
+            lib = ("err", type(e).__name__)
+        r = _cli_run([], ["--decode", a[0]])
+        if lib[0] == "err":
+            return None if (_cli_refused(r) and not r["out"]) else "library refuses (%s) but the CLI printed %r (rc=%r)" % (lib[1], r["out"][:80], r["rc"])
+        return None if IMPL[op](*a) == lib[1] else "cli != library"
+    lib_case = {"cls": c["cls"], "op": CLI_LIB[op], "args": a[:1], "strict": False}
+    # (1) refusal: what the library refuses, the CLI refuses without output
+    try:
+        lib = ("ok", IMPL[CLI_LIB[op]](*a[:1]))
+    except Exception as e:
+        lib = ("err", type(e).__name__)
+    try:
+        got = ("ok", IMPL[op](*a))
+    except CliLeak as e:
+        return "CLI: %s" % e
+    except Exception as e:
+        got = ("err", type(e).__name__)
+    if lib[0] == "err":
+        return None if got[0] == "err" else "library refuses (%s) but the CLI printed a value %s" % (lib[1], short(got[1], 80))
+    if got[0] == "err":
+        return "library returns a value but the CLI refuses with %s" % got[1]
+    # (2) the printed value satisfies the literal statement (independent reference), when inside the quantifier
+    if not in_quantifier(lib_case):
+        return None if norm_val(got[1]) == norm_val(lib[1]) else "CLI prints %s, library returns %s" % (short(got[1], 80), short(lib[1], 80))
+    if op == "cli_script":
+        want = ref_asm([_classify(x) for x in a[0]])
+    elif op == "cli_script_w":
+        want = ref_witness(a[0])
+    elif op == "cli_decode":
+        items = ref_disasm(a[0], need_minimal=True)
+        if not matches(got[1], items):
+            return "CLI disassembly %s is not the reference disassembly %s" % (short(got[1], 200), short(items, 200))
+        back = _cli_script(got[1], "hex")
+        return None if back == a[0] else "bits script $(bits script --decode X) = %s != X" % short(back.hex(), 80)
+    else:
+        r = ref_witness_parse(a[0])
+        want = (r[0], r[1])
+        got = ("ok", (list(got[1][0]), got[1][1]))
+    return None if got[1] == want else "CLI prints %s, the property requires %s" % (
+        short(got[1].hex() if isinstance(got[1], bytes) else got[1], 100), short(want.hex() if isinstance(want, bytes) else want, 100))
+
+
+def norm_val(v):
+    if isinstance(v, tuple):
+        return [norm_val(x) for x in v]
+    if isinstance(v, list):
+        return [norm_val(x) for x in v]
+    return v
+
+
 def _prop_oracle(c):
     m = S()
     op, a = c["op"], c["args"]
+    if op.startswith("cli_"):
+        return _cli_oracle(c)
     if op == "script":
         items = [_classify(x) for x in a[0]]
         if any(i is None for i in items):
@@ -627,6 +849,67 @@ def gen_cases(rng, tier):
         WD("wd-malformed", bytes.fromhex(s))
     for _ in range(300 if T else 60):
         WD("wd-rand", bytes([rng.randrange(0, 4)]) + rng.randbytes(rng.randrange(0, 12)))
+
+    # ---- the command line: `bits script` must agree with the library / model --------------------
+    CA = lambda cls, strs, fmt="hex": out.append(case(cls, "cli_script", strs, fmt))
+    fmts = list(CLI_FMT)
+    CA("cli-asm-empty", [])
+    CA("cli-asm-empty", [], "raw")
+    CA("cli-asm-empty", [], "bin")
+    CA("cli-asm-empty-data", ["", "OP_DUP", ""])
+    CA("cli-asm-doctest", ["OP_2", "024c9b21035e4823d6f09d5a948201d14086d854dfa5bba828c06f5131d9cfe14f",
+                           "03fe0b5ca0ab60705b21a00cbd9900026f282c7188427123e87e0dc344ce742eb0", "OP_3", "OP_CHECKMULTISIG"])
+    for i, n in enumerate([1, 75, 76, 255, 256, 65535, 65536] + ([2, 74, 77, 254, 257, 600, 65534, 65537] if T else [])):
+        d = rng.randbytes(n)
+        CA("cli-asm-" + _len_cls(n), ["OP_DUP", d.hex(), "OP_EQUAL"], fmts[i % len(fmts)])
+        CA("cli-asm-" + _len_cls(n), [d.hex()])
+    for i, n in enumerate(("OP_0", "OP_FALSE", "OP_1", "OP_TRUE", "OP_NOP2", "OP_CHECKLOCKTIMEVERIFY", "OP_NOP3", "OP_CHECKSEQUENCEVERIFY")):
+        CA("cli-asm-alias", [n, "aabb", n], fmts[i % len(fmts)])
+    for fmt in fmts:                                       # every way of choosing the output format; leading 00 byte
+        CA("cli-asm-fmt-" + fmt, ["OP_0", "OP_0", "00ff", "OP_CHECKSIG"], fmt)
+    for _ in range(150 if T else 12):
+        CA("cli-asm-prog", _strs(_rand_items(rng, 6, big=False)), rng.choice(fmts))
+    for strs in (["OP_FOO"], ["zz"], ["abc"], ["aa", "OP_CHECKSIGG"], ["OP_DUP", "0g"], ["OP_dup"], ["op_dup"], [" aa bb "], ["AAbb"],
+                 ["aa", "OP_DUP", "q"]):
+        cls = "cli-asm-refuse" if (strs[0] not in (" aa bb ", "AAbb")) else "cli-asm-lenient-hex"
+        for fmt in ("hex", "raw", "cfg-bin"):
+            CA(cls, strs, fmt)
+    CW = lambda cls, items, fmt="hex": out.append(case(cls, "cli_script_w", items, fmt))
+    CW("cli-w-empty-stack", [])
+    CW("cli-w-empty-stack", [], "raw")
+    for i, n in enumerate([0, 1, 252, 253, 254, 255, 256, 65535, 65536]):
+        CW("cli-w-item-%d" % n, [rng.randbytes(n)], fmts[i % len(fmts)])
+    for cnt in (1, 2, 20, 252, 253, 254) + ((3, 19, 21, 255, 300) if T else ()):
+        CW("cli-w-count-%d" % cnt if cnt in (252, 253) else "cli-w-count", [rng.randbytes(rng.choice([0, 1, 2])) for _ in range(cnt)])
+    for _ in range(40 if T else 5):
+        CW("cli-w-stack", [rng.randbytes(rng.choice([0, 1, 33, 72, 252, 253, 300])) for _ in range(rng.randrange(0, 21))], rng.choice(fmts))
+    CD = lambda cls, bs, variant="plain": out.append(case(cls, "cli_decode", bs, variant))
+    variants = ["plain", "upper", "spaced", "dashdash", "in-raw", "out-raw", "loglevel"]
+    CD("cli-dec-empty", b"")
+    for i, n in enumerate([1, 75, 76, 255, 256, 65535, 65536]):
+        CD("cli-dec-" + _len_cls(n), ref_asm([("op", "OP_DUP"), ("data", rng.randbytes(n)), ("op", "OP_EQUAL")]), variants[i % len(variants)])
+    CD("cli-dec-alias", bytes.fromhex("005100b1b2ac"))
+    for v in variants:
+        CD("cli-dec-variant-" + v, ref_asm([("op", "OP_HASH160"), ("data", rng.randbytes(20)), ("op", "OP_EQUAL")]), v)
+    for _ in range(120 if T else 12):
+        CD("cli-dec-prog", ref_asm(_rand_items(rng, 6, big=False)), rng.choice(variants))
+    for hx in ("ee", "76ee", "4c", "76fd", "fe"):            # the library refuses: KeyError / IndexError
+        CD("cli-dec-refuse", bytes.fromhex(hx))
+        CD("cli-dec-refuse", bytes.fromhex(hx), "out-raw")
+    for hx in ("05aa", "4d05", "4c0000", "4e"):                # Python-lenient disassembly
+        CD("cli-dec-lenient", bytes.fromhex(hx))
+    for hx in ("zz", "7", "76a", "0x76", "OP_DUP"):           # not hex: bytes.fromhex refuses
+        out.append(case("cli-dec-badhex", "cli_decode_str", hx, expect=("err", "ValueE")))
+    out.append(case("cli-dec-multi", "cli_decode_multi", [], expect=("ok", True)))
+    out.append(case("cli-dec-multi-refuse", "cli_decode_multi", [b"\x76", b"\xee"], expect=("ok", True)))
+    out.append(case("cli-dec-multi-refuse", "cli_decode_multi", [b"\x4c", b"\x76"], expect=("ok", True)))
+    for _ in range(20 if T else 4):
+        out.append(case("cli-dec-multi", "cli_decode_multi",
+                        [ref_asm(_rand_items(rng, 4, big=False)) for _ in range(rng.randrange(1, 4))], expect=("ok", True)))
+    if _decode_witness_cases_enabled():
+        for st in ([], [b""], [b"\xaa\xbb", b""], [rng.randbytes(253)], [rng.randbytes(1)] * 253):
+            out.append(case("cli-dec-witness", "cli_decode_w", ref_witness(st)))
+            out.append(case("cli-dec-witness", "cli_decode_w", ref_witness(st) + b"\x01\x02"))
     return out
 
 
@@ -645,22 +928,24 @@ def _shrink(c):
         c2 = dict(c)
         c2["args"] = list(args)
         return c2
-    if c["op"] == "script":
+    if c["op"] in ("script", "cli_script"):
         strs = a[0]
         for i in range(len(strs)):
-            yield with_args(strs[:i] + strs[i + 1:])
+            yield with_args(strs[:i] + strs[i + 1:], *a[1:])
         for i, s in enumerate(strs):
             if not s.startswith("OP_") and len(s) > 2:
                 for t in (s[: (len(s) // 4) * 2], s[:-2], s[2:]):
-                    yield with_args(strs[:i] + [t] + strs[i + 1:])
+                    yield with_args(strs[:i] + [t] + strs[i + 1:], *a[1:])
         return
-    if c["op"] == "witness_ser":
+    if c["op"] in ("witness_ser", "cli_script_w"):
         items = a[0]
         for i in range(len(items)):
-            yield with_args(items[:i] + items[i + 1:])
+            yield with_args(items[:i] + items[i + 1:], *a[1:])
         for i, d in enumerate(items):
             for t in shrink_bytes(d):
-                yield with_args(items[:i] + [t] + items[i + 1:])
+                yield with_args(items[:i] + [t] + items[i + 1:], *a[1:])
+        return
+    if c["op"] == "cli_decode_str":
         return
     for i, x in enumerate(a):
         if isinstance(x, bytes):
@@ -714,6 +999,11 @@ def coq_equation(c, mr):
     if size > 200:
         return None
     op = c["op"]
+    if op.startswith("cli_"):
+        if op not in CLI_MODEL:
+            return None
+        c = {"op": CLI_LIB[op], "args": c["args"][:1]}
+        op = c["op"]
     hashed = {"p2sh_multisig_script_pubkey": "sha256 ripemd160", "p2sh_p2wpkh_script_pubkey": "sha256 ripemd160",
               "p2sh_p2wsh_script_pubkey": "sha256 ripemd160", "p2sh_p2wsh_script_sig": "sha256"}
     args = _coq_args(c)
